@@ -168,4 +168,243 @@ theorem applyUnits_eq (ip f : Int) (hip : 0 ≤ ip) (hip2 : ip ≤ 2147483647) (
   | phys pu => exact applyUnits_phys ip f hip hip2 hf0 hf pu
   | bad => exact applyUnits_bad ip f hip hip2 hf0 hf
 
+
+/-! ## `scan_dimen` -/
+
+
+theorem rdAcc_foldr (ds : List Nat) :
+    rdAcc ds = ds.foldr (fun (d : Nat) (a : Int) => (a + (d : Int) * 131072) / 10) 0 := by
+  induction ds with
+  | nil => rfl
+  | cons d ds ih => simp only [rdAcc, List.foldr_cons, ih]
+
+theorem scanFraction_eq (ds : List Nat) : scanFraction ds = Spec.scanFraction ds := by
+  unfold scanFraction Spec.scanFraction fromDecimalDigits Spec.roundDecimals
+  rw [rdAcc_foldr]
+
+theorem scanFraction_bound (fr : List Nat) (h : ∀ d ∈ fr, d < 10) :
+    0 ≤ scanFraction fr ∧ scanFraction fr ≤ 65536 :=
+  fromDecimalDigits_bound _ (fun d hd => h d (List.mem_of_mem_take hd))
+
+theorem attachSign_bound (cv : Int) (ae neg : Bool) (e o : Nat) :
+    ∃ v n, Spec.attachSign cv ae neg e o = .ok v n o ∧ -1073741823 ≤ v ∧ v ≤ 1073741823 := by
+  by_cases h : (ae = true ∨ cv.natAbs ≥ 1073741824)
+  · rw [attachSign_err _ _ _ _ _ h]
+    cases neg <;> exact ⟨_, _, rfl, by simp⟩
+  · have hae : ae = false := by cases ae <;> simp_all
+    subst hae
+    rw [attachSign_ok _ _ _ _ (by omega)]
+    cases neg
+    · exact ⟨_, _, rfl, by simp; omega⟩
+    · exact ⟨_, _, rfl, by simp; omega⟩
+
+theorem attachFraction_bound (cv f : Int) (ae neg : Bool) (e o : Nat) :
+    ∃ v n, Spec.attachFraction cv f ae neg e o = .ok v n o ∧ -1073741823 ≤ v ∧ v ≤ 1073741823 := by
+  unfold Spec.attachFraction; split <;> exact attachSign_bound _ _ _ _ _
+
+/-- Whatever `scan_dimen` returns after the units is within `±max_dimen`. -/
+theorem units_bound (cv f : Int) (neg : Bool) (e : Nat) (u : UnitSpec) :
+    ∃ v n o, Spec.units cv f neg e u = .ok v n o ∧ -1073741823 ≤ v ∧ v ≤ 1073741823 := by
+  cases u with
+  | fil ls => obtain ⟨v, n, h⟩ := attachFraction_bound cv f false neg (e + (ls - 2)) (min (1 + ls) 3); exact ⟨v, n, _, h⟩
+  | internal w => simp only [Spec.units]; obtain ⟨v, n, h⟩ := attachSign_bound _ _ neg e 0; exact ⟨v, n, _, h⟩
+  | bad => obtain ⟨v, n, h⟩ := attachFraction_bound cv f false neg (e + 1) 0; exact ⟨v, n, _, h⟩
+  | phys pu =>
+    cases pu <;> simp only [Spec.units] <;>
+      first
+        | (obtain ⟨v, n, h⟩ := attachFraction_bound _ _ _ neg e 0; exact ⟨v, n, _, h⟩)
+        | (obtain ⟨v, n, h⟩ := attachSign_bound _ _ neg e 0; exact ⟨v, n, _, h⟩)
+
+/-- Applying the explicit sign after the fact (`? * negative`) = `if negative then negate`. -/
+theorem mulSign_shift (r : SRes) (neg : Bool) (v : Int) (n o : Nat) (hr : r.toSR = .ok v n o)
+    (hb : -1073741823 ≤ v ∧ v ≤ 1073741823) :
+    (mulSign r (if neg then -1 else 1)).toSR = shift neg 0 (.ok v n o) := by
+  cases r with
+  | panic => simp [SRes.toSR] at hr
+  | ok sc =>
+    simp only [SRes.toSR, Spec.SR.ok.injEq] at hr
+    obtain ⟨h1, h2, h3⟩ := hr
+    subst h1 h2 h3
+    cases neg
+    · simp only [mulSign, Bool.false_eq_true, if_false, Int.mul_one]
+      rw [if_pos (by simp [inI32]; omega)]
+      simp [SRes.toSR, shift]
+    · simp only [mulSign, if_true]
+      rw [if_pos (by simp [inI32]; omega)]
+      simp [SRes.toSR, shift]
+
+
+/-- The coefficient the code computes from the head of a dimension: integer part, fraction. -/
+def coeff : Head → Int × Int
+  | .const radix ds fr =>
+    ((scanConst radix ds).1,
+     match fr with
+     | some fd => if radix = 10 then scanFraction fd else 0
+     | none => 0)
+  | .point fr => (0, scanFraction fr)
+  | .int i => (satAbs i, 0)
+  | .dimen _ => (0, 0)
+
+/-- Inputs the scanner can be given: digits below the radix, 32-bit internal values; the
+internal integer `-2^31` (whose negation TeX cannot form) is covered by examples instead. -/
+def Head.WF : Head → Prop
+  | .const radix ds fr =>
+    (radix = 10 ∨ radix = 8 ∨ radix = 16) ∧ (∀ d ∈ ds, (d : Int) < radix) ∧
+      (∀ fd, fr = some fd → ∀ d ∈ fd, d < 10)
+  | .point fr => ∀ d ∈ fr, d < 10
+  | .int i => -2147483647 ≤ i ∧ i ≤ 2147483647
+  | .dimen d => -2147483648 ≤ d ∧ d ≤ 2147483647
+
+theorem scanDimen_dimen (neg : Bool) (d : Int) (hd : -2147483648 ≤ d ∧ d ≤ 2147483647) (u : UnitSpec) :
+    (scanDimen neg (.dimen d) u).toSR = Spec.scanDimen neg (.dimen d) u := by
+  have hM : maxDimen = 1073741823 := rfl
+  simp only [scanDimen, Spec.scanDimen]
+  by_cases h : d < -maxDimen ∨ d > maxDimen
+  · rw [if_pos h, attachSign_err _ _ _ _ _ (Or.inr (by omega))]
+    cases neg <;> simp [mulSign, handleOverflow, inI32, hM, SRes.toSR]
+  · rw [if_neg h, attachSign_ok _ _ _ _ (by omega)]
+    cases neg
+    · simp only [mulSign, Bool.false_eq_true, if_false, Int.mul_one]
+      rw [if_pos (by simp [inI32]; omega)]; simp [SRes.toSR]
+    · simp only [mulSign, if_true]
+      rw [if_pos (by simp [inI32]; omega)]; simp [SRes.toSR]
+
+
+theorem scan_const_range (radix : Int) (hr : radix = 10 ∨ radix = 8 ∨ radix = 16) (ds : List Nat)
+    (hd : ∀ d ∈ ds, (d : Int) < radix) :
+    0 ≤ (scanConst radix ds).1 ∧ (scanConst radix ds).1 ≤ 2147483647 := by
+  unfold scanConst
+  cases ds with
+  | nil => simp
+  | cons d rest =>
+    have hd0 : (d : Int) < radix := hd d (by simp)
+    simp only []
+    split
+    · have := constLoop_range radix (by omega) rest d false (by omega) (by omega) (by simp)
+      exact ⟨this.1, this.2.1⟩
+    · have := constLoop_range radix (by omega) (d :: rest) 0 false (by omega) (by omega) (by simp)
+      exact ⟨this.1, this.2.1⟩
+
+theorem shift_shift (neg : Bool) (e : Nat) (r : Spec.SR) : shift false e (shift neg 0 r) = shift neg e r := by
+  cases r <;> simp [shift]
+
+/-- Units, then the explicit sign. -/
+theorem signed_units (neg : Bool) (ip f : Int) (hip : 0 ≤ ip) (hip2 : ip ≤ 2147483647) (hf0 : 0 ≤ f)
+    (hf : f ≤ 65536) (u : UnitSpec) (hex : negUnitOverflow ip f u = false) :
+    (mulSign (applyUnits ip f u) (if neg then -1 else 1)).toSR = Spec.units ip f neg 0 u := by
+  have h1 := applyUnits_eq ip f hip hip2 hf0 hf u hex
+  obtain ⟨v, n, o, h2, h3⟩ := units_bound ip f false 0 u
+  rw [h2] at h1
+  rw [mulSign_shift _ neg v n o h1 h3, units_shift ip f neg 0 u, h2]
+
+theorem units_zero (u : UnitSpec) : ∃ n o, Spec.units 0 0 false 0 u = .ok 0 n o := by
+  cases u with
+  | fil ls =>
+    simp only [Spec.units, Spec.attachFraction]
+    rw [if_neg (by omega), attachSign_ok _ _ _ _ (by simp)]
+    refine ⟨0 + (ls - 2), min (1 + ls) 3, ?_⟩; simp
+  | bad =>
+    simp only [Spec.units, Spec.attachFraction]
+    rw [if_neg (by omega), attachSign_ok _ _ _ _ (by simp)]
+    refine ⟨0 + 1, 0, ?_⟩; simp
+  | phys pu => cases pu <;> exact ⟨0, 0, by decide⟩
+  | internal v =>
+    have hn : Spec.nxPlusY 0 v 0 = ⟨0, false⟩ := by simp [Spec.nxPlusY, Spec.multAndAdd]
+    by_cases hv : 0 ≤ v
+    · obtain ⟨g, hg⟩ := specXnOverD_nonneg v 0 65536 hv (by omega) (by omega)
+      simp only [Int.mul_zero, Int.zero_ediv, Int.zero_emod] at hg
+      rw [if_neg (by decide)] at hg
+      simp only [Spec.units, hg, hn, Bool.or_false]
+      rw [attachSign_ok _ _ _ _ (by simp)]
+      refine ⟨0, 0, ?_⟩; simp
+    · obtain ⟨g, hg⟩ := specXnOverD_neg (-v) 0 65536 (by omega) (by omega) (by omega)
+      simp only [Int.mul_zero, Int.zero_ediv, Int.zero_emod, Int.neg_neg, Int.neg_zero] at hg
+      rw [if_neg (by decide)] at hg
+      simp only [Spec.units, hg, hn, Bool.or_false]
+      rw [attachSign_ok _ _ _ _ (by simp)]
+      refine ⟨0, 0, ?_⟩; simp
+
+/-- `scan_dimen` (M, the code with the fixes) = TeX §448–§460 (S): same value, same number of
+errors, same glue order — for every sign string, head and unit. Excluded: the recorded deviation
+C06-f (`negUnitOverflow`) and, via `Head.WF`, the internal integer `-2^31`. -/
+theorem scanDimen_eq (neg : Bool) (h : Head) (u : UnitSpec) (wf : h.WF)
+    (hex : negUnitOverflow (coeff h).1 (coeff h).2 u = false) :
+    (scanDimen neg h u).toSR = Spec.scanDimen neg h u := by
+  cases h with
+  | dimen d => exact scanDimen_dimen neg d wf u
+  | point fr =>
+    simp only [coeff] at hex
+    have hb := scanFraction_bound fr wf
+    simp only [scanDimen, Spec.scanDimen, ← scanFraction_eq]
+    exact signed_units neg 0 (scanFraction fr) (by omega) (by omega) hb.1 hb.2 u hex
+  | int i =>
+    simp only [Head.WF] at wf
+    simp only [coeff] at hex
+    simp only [scanDimen, Spec.scanDimen]
+    by_cases hi : i < 0
+    · rw [if_pos hi]
+      have hs : satAbs i = -i := by unfold satAbs; rw [if_neg (by omega), if_pos hi]
+      have hg : sgn i = -1 := by unfold sgn; rw [if_neg (by omega), if_pos hi]
+      rw [hs] at hex ⊢
+      rw [hg]
+      have := signed_units (!neg) (-i) 0 (by omega) (by omega) (by omega) (by omega) u hex
+      rw [← this]
+      cases neg <;> simp
+    · rw [if_neg hi]
+      by_cases h0 : i = 0
+      · subst h0
+        have hs : satAbs 0 = 0 := by decide
+        have hg : sgn 0 = 0 := by decide
+        rw [hs] at hex ⊢
+        rw [hg, Int.mul_zero]
+        obtain ⟨n, o, hz⟩ := units_zero u
+        have h1 := applyUnits_eq 0 0 (by omega) (by omega) (by omega) (by omega) u hex
+        rw [hz] at h1
+        rw [units_shift 0 0 neg 0 u, hz]
+        cases hr : applyUnits 0 0 u with
+        | panic => rw [hr] at h1; simp [SRes.toSR] at h1
+        | ok sc =>
+          rw [hr] at h1
+          simp only [SRes.toSR, Spec.SR.ok.injEq] at h1
+          simp only [mulSign, Int.mul_zero]
+          rw [if_pos (by decide)]
+          cases neg <;> simp [SRes.toSR, shift, h1.2.1, h1.2.2]
+      · have hs : satAbs i = i := by unfold satAbs; rw [if_neg (by omega), if_neg hi]
+        have hg : sgn i = 1 := by unfold sgn; rw [if_pos (by omega)]
+        rw [hs] at hex ⊢
+        rw [hg, Int.mul_one]
+        exact signed_units neg i 0 (by omega) (by omega) (by omega) (by omega) u hex
+  | const radix ds fr =>
+    obtain ⟨hr, hd, hfd⟩ := wf
+    simp only [coeff] at hex
+    have hc := scanConst_eq radix hr ds hd
+    have hrange := (scan_const_range radix hr ds hd)
+    simp only [scanDimen, Spec.scanDimen, ← hc]
+    generalize hcv : scanConst radix ds = c at *
+    obtain ⟨ip, e⟩ := c
+    simp only [] at hex hrange ⊢
+    have key : ∀ f : Int, 0 ≤ f → f ≤ 65536 → negUnitOverflow ip f u = false →
+        (match mulSign (applyUnits ip f u) (if neg = true then -1 else 1) with
+          | SRes.ok sc => SRes.ok { val := sc.val, nerr := sc.nerr + e, order := sc.order }
+          | SRes.panic => SRes.panic).toSR = Spec.units ip f neg e u := by
+      intro f hf0 hf hx
+      have h1 := signed_units neg ip f hrange.1 hrange.2 hf0 hf u hx
+      rw [units_shift ip f neg e u]
+      rw [units_shift ip f neg 0 u] at h1
+      rw [← shift_shift neg e, ← h1]
+      cases mulSign (applyUnits ip f u) (if neg = true then -1 else 1) <;> simp [SRes.toSR, shift]
+    cases fr with
+    | none => exact key 0 (by omega) (by omega) hex
+    | some fd =>
+      simp only [] at hex ⊢
+      by_cases h10 : radix = 10
+      · rw [if_pos h10] at hex ⊢
+        rw [if_pos h10, ← scanFraction_eq]
+        have hb := scanFraction_bound fd (hfd fd rfl)
+        exact key _ hb.1 hb.2 hex
+      · rw [if_neg h10] at hex ⊢
+        rw [if_neg h10]
+        exact key 0 (by omega) (by omega) hex
+
+
 end C06
